@@ -44,6 +44,7 @@ func init() {
 	reg("c10", "LowHalf", func(a []int64) { c10.LowHalf(int(a[0]), int(a[1])) })
 	reg("c10", "Reads", func(a []int64) { c10.Reads(int(a[0]), int(a[1]), int(a[2]), int(a[3])) })
 	reg("c10", "Writes", func(a []int64) { c10.Writes(int(a[0]), int(a[1]), int(a[2]), int(a[3])) })
+	reg("c10", "Huge", func(a []int64) { c10.Huge(int(a[0]), int(a[1])) })
 	reg("c10", "Handles", func(a []int64) { c10.Handles(int(a[0]), int(a[1]), int(a[2])) })
 	reg("c11", "Long", func(a []int64) { c11.Long(int(a[0])) })
 	reg("c11", "Address", func(a []int64) { c11.Address(int(a[0])) })
@@ -59,6 +60,7 @@ func init() {
 	reg("c05", "BusPages", func(a []int64) { c05.BusPages(int(a[0])) })
 	reg("c05", "PakPages", func(a []int64) { c05.PakPages(int(a[0])) })
 	reg("c13", "Route", func(a []int64) { c13.Route(int(a[0])) })
+	reg("c13", "LargeDevice", func(a []int64) { c13.LargeDevice() })
 	reg("c13", "Devices", func(a []int64) { c13.Devices() })
 	reg("c13", "Route24", func(a []int64) { c13.Route24(int(a[0])) })
 	reg("c13", "Misaligned", func(a []int64) { c13.Misaligned(int(a[0]), int(a[1]), int(a[2])) })
@@ -70,6 +72,7 @@ func init() {
 	reg("c15", "Listing", func(a []int64) { c15.Listing(a[0], int(a[1]), int(a[2]), int(a[3]), int(a[4])) })
 	reg("c15", "Pieces", func(a []int64) { c15.Pieces(a[0], int(a[1]), int(a[2]), int(a[3]), int(a[4]), int(a[5]), int(a[6])) })
 	reg("c16", "Split", func(a []int64) { c16.Split(a[0], int(a[1]), int(a[2]), int(a[3]), int(a[4])) })
+	reg("c16", "SharedFragment", func(a []int64) { c16.SharedFragment(int(a[0])) })
 	reg("c16", "TwoClones", func(a []int64) { c16.TwoClones(int(a[0]), int(a[1])) })
 	reg("c16", "AppendTooBig", func(a []int64) { c16.AppendTooBig(int(a[0]), int(a[1]), int(a[2]), int(a[3])) })
 	reg("c19", "Data", func(a []int64) { c19.Data(int(a[0]), int(a[1]), int(a[2])) })
